@@ -1187,6 +1187,15 @@ Section Steps.
     - apply bind_ext. intros ys. reflexivity.
   Qed.
 
+  Lemma mapM_to_val' {A B C} (f : A -> comp dval) (R : list val -> comp C) (K2 : C -> comp B) l :
+    (forall x, leaves is_DV (f x)) ->
+    bind (mapM f l) (fun ds => bind (match all_vals ds with Some vs => R vs | None => Panic P_ILLTYPED end) K2)
+    = bind (mapM (fun x => bind (f x) to_val) l) (fun vs => bind (R vs) K2).
+  Proof.
+    intros Hf. rewrite <- (mapM_to_val f (fun vs => bind (R vs) K2) l Hf).
+    apply bind_ext. intros ds. destruct (all_vals ds); reflexivity.
+  Qed.
+
   Lemma spawn_wrap k b c : is_async cfg = false -> is_spawn cfg && Nat.ltb 1 (active_count j k) = true ->
     wrap_branch j k b c = RBlock [] (RGlue (RGlue (RVar (n_j b)) "spawn" [RMoveThunk c]) "unwrap" []).
   Proof.
@@ -1265,7 +1274,7 @@ Section Steps.
       unfold ρ2. rewrite ext_env_not_ew by (intros b' e i; rewrite n_j_g, n_ew_g; apply gname_neq; discriminate).
       fold ρ1. unfold ρ1 at 1. rewrite Hbd. nb.
       rewrite dens_cons, den_RMoveThunk, !dens_nil. nb. rewrite glue_spawn. unfold F. cbn [fst snd].
-      unfold std_spawn. cbn [bind]. fold ρ2.
+      unfold std_spawn. cbn [bind].
       rewrite (chain_in_step k ρ1 st cp b ds c0 HI1 Hb_in Hkeys Hr).
       apply Spawn_ext. intros h. nb. rewrite glue_unwrap. reflexivity. }
     rewrite den_RTuple.
@@ -1293,11 +1302,11 @@ Section Steps.
     { intros ib. rewrite !den_RGlue, den_RField, den_RVar. unfold ρ3. rewrite upd_same. nb. cbn [app].
       destruct (nth_error hs (fst ib)) as [v|]; nb; [|reflexivity].
       rewrite !dens_nil. nb. unfold join_unwrap.
-      destruct v; try reflexivity. rewrite glue_join. nb. apply bind_ext. intros r. nb. rewrite glue_unwrap. reflexivity. }
+      destruct v; reflexivity. }
     rewrite (mapM_ext_in _ _ _ (fun ib _ => Hju ib)).
     rewrite (mapM_enum_nth (fun o => match o with Some v => join_unwrap v | None => Panic P_ILLTYPED end) hs acts 0 []
                            eq_refl Hhs).
-    rewrite (mapM_to_val join_unwrap _ hs join_unwrap_DV).
+    rewrite (mapM_to_val' join_unwrap (fun vs => Ret (DV (VTuple vs))) _ hs join_unwrap_DV).
     assert (HG : forall v, bind (join_unwrap v) to_val =
                            match v with
                            | VHandle i => let! r := std_join i in let! u := std_unwrap r in to_val u
@@ -1316,5 +1325,242 @@ Section Steps.
     destruct (is_spawn cfg && Nat.ltb 1 (active_count j k)) eqn:Hs.
     - eapply step_refines_spawn; eauto.
     - eapply step_refines_plain; eauto.
+  Qed.
+
+  (* ------------------------------------------------------------------------------------------ *)
+  (* the async kinds: futures built per branch, join!/try_join! (never-pending children), await *)
+  (* ------------------------------------------------------------------------------------------ *)
+
+  Lemma gen_step_async_inv k sr step :
+    is_async cfg = true -> gen_step j k vars sr = Ok step ->
+    exists cs, Forall2 (chain_of k) cs (actives sp k) /\
+      step = flat_map (fun b => nodes_defs b (tree sp b k)) (actives sp k)
+             ++ [SLet (PIdent sr)
+                      (if Nat.ltb 1 (active_count j k)
+                       then RCall (RJoinMac (opt_default (j_fcp j) []) (is_try cfg)) cs
+                       else RAwait (match cs with [c] => c | _ => RJuxt cs end))].
+  Proof.
+    intros Ha Hg. unfold gen_step in Hg.
+    destruct (gen_branches j k vars 0 (j_chains j)) as [[defs cs]| |] eqn:Eb; cbn [rbind] in Hg; try discriminate.
+    rewrite (r_cfg_j _ _ _ HR), Ha, (r_joiner _ _ _ HR) in Hg.
+    destruct (gen_branches_spec k _ _ _ _ _ (r_chains _ _ _ HR) Eb) as [Hd Hc].
+    rewrite (rel_spec_branches sp k) in Hd, Hc. rewrite flat_map_map in Hd. cbn [fst snd] in Hd.
+    apply Forall2_map_r in Hc.
+    exists cs. split.
+    - eapply Forall2_impl; [|exact Hc]. cbn beta. intros c b (c0 & E & Hr). cbn [fst snd] in *.
+      exists c0, (nodes_defs b (tree sp b k)). split; assumption.
+    - rewrite <- Hd. destruct (Nat.ltb 1 (active_count j k)); inversion Hg; reflexivity.
+  Qed.
+
+  Lemma async_wrap k b c : is_async cfg = true ->
+    wrap_branch j k b c =
+    if Nat.ltb 1 (active_count j k) && is_spawn cfg then RBlock [] (RCall (RVar n_spawn_tokio) [RBoxPin c]) else c.
+  Proof.
+    intros Ha. unfold wrap_branch. rewrite (r_lazy _ _ _ HR), (r_cfg_j _ _ _ HR), Ha.
+    rewrite andb_false_r. destruct (Nat.ltb 1 (active_count j k)); [|reflexivity].
+    destruct (is_spawn cfg); reflexivity.
+  Qed.
+
+  Lemma step_async : is_async cfg = true -> step_hyp.
+  Proof.
+    intros Ha k ρ st step HI Hk Hg A K K' HK.
+    destruct (gen_step_async_inv k (n_sr k) step Ha Hg) as (cs & Hcs & ->).
+    rewrite execs_app, execs_step_defs. nb.
+    unfold step_result. rewrite (r_cfg_sp _ _ _ HR), Ha.
+    rewrite <- (rel_active_count _ _ _ HR), <- (snap_inv ρ st HI). nb.
+    eapply bind_ext_leaves; [apply captures_keys|]. intros cp Hkeys. nb.
+    cbn [execs]. rewrite exec_SLet_ident. nb.
+    pose proof (rel_actives_nonempty _ _ _ HR k Hk) as Hne.
+    assert (HI' : Inv (ext_env ρ cp) st) by (apply Inv_ext_env; exact HI).
+    set (G := fun b => let! d := chain msem dotsem callsem sp (snapρ ρ) cp k st b in
+                       if is_spawn cfg then match d with DFut _ | DV _ => Ret d | _ => Panic P_ILLTYPED end else Ret d).
+    assert (HK' : forall v, K (upd (ext_env ρ cp) (n_sr k) (DV v)) = K' (DV v)).
+    { intros v. apply HK; [apply Inv_upd_temp; [exact HI'|apply temp_sr]|apply upd_same|exact I]. }
+    destruct (Nat.ltb 1 (active_count j k)) eqn:Hm.
+    - (* several active branches: join! / try_join! *)
+      assert (Hchain : Forall2 (fun c b => D c (ext_env ρ cp) = G b) cs (actives sp k)).
+      { eapply Forall2_impl_in; [exact Hcs|]. intros c b Hb (c0 & ds & Ec & Hr).
+        rewrite Ec, (async_wrap k b c0 Ha), Hm. cbn [andb]. unfold G.
+        pose proof (chain_in_step k ρ st cp b ds c0 HI Hb Hkeys Hr) as Hc. rewrite <- (snap_inv ρ st HI) in Hc.
+        destruct (is_spawn cfg) eqn:Hsp.
+        - rewrite den_RBlock. cbn [execs]. nb. rewrite den_RCall_var, den_RVar.
+          rewrite (inv_tokio _ _ HI' Hsp Ha). nb. rewrite dens_cons, den_RBoxPin, Hc, dens_nil. nb.
+          apply bind_ext. intros d. nb. destruct d; reflexivity.
+        - rewrite Hc. symmetry. apply bind_ret_r. }
+      rewrite den_RCall_mac, dens_mapM, (mapM_Forall2 _ _ _ _ Hchain). nb.
+      apply bind_ext. intros futs. nb. apply bind_ext. intros v. nb. apply HK'.
+    - (* one active branch: awaited in place *)
+      assert (Hlen : List.length (actives sp k) <= 1).
+      { rewrite <- (rel_active_count _ _ _ HR). apply Nat.ltb_ge in Hm. lia. }
+      destruct (actives sp k) as [|b [|b2 r]] eqn:Eacts; [congruence| |cbn in Hlen; lia].
+      inversion Hcs as [|c ? cs' ? (c0 & ds & Ec & Hr) Hrest]; subst. inversion Hrest; subst.
+      rewrite den_RAwait, (async_wrap k b c0 Ha), Hm. cbn [andb].
+      assert (Hb : In b (actives sp k)) by (rewrite Eacts; left; reflexivity).
+      pose proof (chain_in_step k ρ st cp b ds c0 HI Hb) as Hc. rewrite Eacts in Hc. specialize (Hc Hkeys Hr).
+      rewrite Hc, (snap_inv ρ st HI). nb. apply bind_ext. intros d. nb. apply bind_ext. intros v. nb. apply HK'.
+  Qed.
+
+  (* every kind *)
+  Theorem step_all : step_hyp.
+  Proof. destruct (is_async cfg) eqn:Ha; [apply step_async|apply step_sync]; exact Ha. Qed.
+
+  (* ---- async try kinds: `match __srK { Ok(__srK) => { re-wrap; destructure; next } , Err(err) => Err(err) }` ---- *)
+  Lemma enum_from_fst {A} : forall (l : list A) o, map fst (enum_from o l) = seq o (List.length l).
+  Proof. induction l as [|x r IH]; intros o; cbn [enum_from map List.length seq fst]; [reflexivity|]. rewrite IH. reflexivity. Qed.
+
+  Lemma all_vals_DV : forall ds, Forall is_DV ds -> exists vs, all_vals ds = Some vs.
+  Proof.
+    induction 1 as [|d ds Hd Hr [vs IH]]; [exists []; reflexivity|].
+    destruct d; try contradiction. cbn [all_vals]. rewrite IH. eauto.
+  Qed.
+
+  Definition rewrapped (rew : list dval) : dval :=
+    match rew with [d] => d | _ => DV (VTuple (match all_vals rew with Some l => l | None => [] end)) end.
+
+  Lemma rewrap_sem k ρ w : ρ (n_sr k) = Some (DV w) -> actives sp k <> [] ->
+    D (RTuple (map (fun ib : nat * nat => ROk (indexed_sr j (n_sr k) k (fst ib))) (enum_from 0 (actives sp k)))) ρ
+    = let! rew := rewrap (actives sp k) w in Ret (rewrapped rew).
+  Proof.
+    intros Hsr Hne. unfold indexed_sr. rewrite (rel_active_count _ _ _ HR).
+    destruct (actives sp k) as [|b1 [|b2 r]] eqn:Eacts; [congruence| |].
+    - cbn [List.length Nat.ltb Nat.leb enum_from map fst]. rewrite den_RTuple, den_ROk, den_RVar, Hsr. reflexivity.
+    - remember (b1 :: b2 :: r) as acts.
+      assert (Hl : 2 <= List.length acts) by (subst acts; cbn; lia).
+      assert (Hm : Nat.ltb 1 (List.length acts) = true) by (apply Nat.ltb_lt; lia).
+      rewrite Hm.
+      assert (Hshape : forall (T : Type) (x : rexpr -> T) (y : T),
+                 match map (fun ib : nat * nat => ROk (RField (RVar (n_sr k)) (fst ib))) (enum_from 0 acts)
+                 with [e] => x e | _ => y end = y) by (intros; subst acts; reflexivity).
+      rewrite den_RTuple, Hshape.
+      assert (Hre : rewrap acts w = match w with
+                                    | VTuple ws => mapM (fun i => match nth_error ws i with
+                                                                   | Some x => Ret (DV (VOk x))
+                                                                   | None => Panic P_ILLTYPED end) (seq 0 (List.length acts))
+                                    | _ => Panic P_ILLTYPED end) by (subst acts; reflexivity).
+      rewrite Hre.
+      assert (Hel : forall ib : nat * nat,
+                 D (ROk (RField (RVar (n_sr k)) (fst ib))) ρ =
+                 match w with
+                 | VTuple ws => match nth_error ws (fst ib) with Some x => Ret (DV (VOk x)) | None => Panic P_ILLTYPED end
+                 | _ => Panic P_ILLTYPED end).
+      { intros ib. rewrite den_ROk, den_RField, den_RVar, Hsr. nb.
+        destruct w; try reflexivity. destruct (nth_error vs (fst ib)); reflexivity. }
+      rewrite dens_mapM, mapM_map, (mapM_ext_in _ _ _ (fun ib _ => Hel ib)).
+      destruct w as [| | | | | | | | |ws| |]; try (subst acts; reflexivity).
+      rewrite <- (mapM_map (fun i => match nth_error ws i with Some x => Ret (DV (VOk x)) | None => Panic P_ILLTYPED end) fst).
+      rewrite enum_from_fst.
+      eapply bind_ext_leaves.
+      { apply leaves_and; [apply leaves_mapM_length|apply (leaves_mapM is_DV)].
+        intros i _. destruct (nth_error ws i); constructor. exact I. }
+      intros rew [Hrl Hrd]. rewrite seq_length in Hrl.
+      destruct (all_vals_DV rew Hrd) as (vs & Ev). unfold rewrapped. rewrite Ev.
+      destruct rew as [|d1 [|d2 rr]]; cbn in Hrl; try lia. reflexivity.
+  Qed.
+
+  Lemma join_steps_try_async k step next body :
+    is_try cfg = true -> is_async cfg = true -> join_steps j k step next pats vars (n_sr k) = Ok body ->
+    if Nat.ltb k (j_max j - 1) then
+      exists nss ne, next = Some (nss, ne) /\
+        body = (step, RMatchOk (RVar (n_sr k)) (n_sr k)
+                        (RBlock ([SLet (PIdent (n_sr k))
+                                       (RTuple (map (fun ib : nat * nat => ROk (indexed_sr j (n_sr k) k (fst ib)))
+                                                    (enum_from 0 (actives sp k))));
+                                  extract_step j (n_sr k) pats k] ++ nss) ne))
+    else if Nat.ltb 1 n then
+      let inactive := filter (fun b => negb (is_active j k b)) (seq 0 n) in
+      match inactive with
+      | [] => body = (step, RMatchOk (RVar (n_sr k)) (n_sr k)
+                              (RBlock [extract_step j (n_sr k) pats k] (ROk (tuple_of vars))))
+      | _ => exists t, transposer (map bname inactive) (tuple_of vars) = Some t /\
+                       body = (step, RMatchOk (RVar (n_sr k)) (n_sr k) (RBlock [extract_step j (n_sr k) pats k] t))
+      end
+    else body = (step, RMatchOk (RVar (n_sr k)) n_v (ROk (RTuple [RVar n_v]))).
+  Proof.
+    intros Ht Ha. unfold join_steps. rewrite (r_cfg_j _ _ _ HR), Ht, (r_transpose _ _ _ HR), Ht, Ha. cbn [andb negb].
+    rewrite active_branches_eq.
+    destruct (Nat.ltb k (j_max j - 1)).
+    - destruct next as [[nss ne]|]; [|discriminate]. intros H; inversion H; subst body. exists nss, ne.
+      split; reflexivity.
+    - destruct (Nat.ltb 1 n); [|intros H; inversion H; reflexivity].
+      unfold vars at 1. rewrite (enum_filter_map bname (fun b => negb (is_active j k b)) n 0).
+      cbv zeta.
+      destruct (filter (fun b => negb (is_active j k b)) (seq 0 n)) as [|i0 ir] eqn:Ef.
+      + cbn [map]. intros H; inversion H; reflexivity.
+      + remember (i0 :: ir) as inact. assert (Hne : map bname inact <> []) by (subst inact; discriminate).
+        destruct (map bname inact) as [|x xs] eqn:Em; [congruence|].
+        destruct (transposer (x :: xs) (tuple_of vars)) as [t|]; [|discriminate].
+        intros H; inversion H. subst inact. exists t. split; reflexivity.
+  Qed.
+
+  Lemma inactive_eq k : filter (fun b => negb (active sp k b)) (seq 0 (List.length (sp_trees sp)))
+                        = filter (fun b => negb (is_active j k b)) (seq 0 n).
+  Proof.
+    rewrite (rel_n_trees _ _ _ HR). apply filter_ext. intros b. rewrite (rel_active _ _ _ HR). reflexivity.
+  Qed.
+
+  Theorem steps_try_async : step_hyp -> is_try cfg = true -> is_async cfg = true ->
+    forall fuel k ss e, gen_steps j pats vars k fuel = Ok (Some (ss, e)) -> k + fuel = j_max j ->
+    forall ρ st, Inv ρ st -> D (RBlock ss e) ρ = steps msem dotsem callsem awaitsem sp fuel k st.
+  Proof.
+    intros Hstep Ht Ha. induction fuel as [|f IH]; intros k ss e Hg Hk ρ st HI; [discriminate|].
+    cbn [gen_steps] in Hg.
+    destruct (gen_steps j pats vars (S k) f) as [next| |] eqn:En; cbn [rbind] in Hg; try discriminate.
+    destruct (gen_step j k vars (n_sr k)) as [step| |] eqn:Es; cbn [rbind] in Hg; try discriminate.
+    destruct (join_steps j k step next pats vars (n_sr k)) as [body| |] eqn:Ej; cbn [rbind] in Hg; try discriminate.
+    inversion Hg; subst body; clear Hg.
+    apply (join_steps_try_async _ _ _ _ Ht Ha) in Ej.
+    cbn [steps]. rewrite (r_cfg_sp _ _ _ HR), Ht, Ha. cbn [negb].
+    assert (Hkm : k < j_max j) by lia.
+    pose proof (rel_actives_nonempty _ _ _ HR k Hkm) as Hne.
+    destruct f as [|f'].
+    - (* last step *)
+      replace (Nat.ltb k (j_max j - 1)) with false in Ej by (symmetry; apply Nat.ltb_ge; lia).
+      cbn [Nat.eqb]. rewrite (rel_n_trees _ _ _ HR), inactive_eq.
+      destruct (Nat.ltb 1 n) eqn:Hn1.
+      + cbv zeta in Ej.
+        destruct (filter (fun b => negb (is_active j k b)) (seq 0 n)) as [|i0 ir] eqn:Ef.
+        * inversion Ej; subst ss e. rewrite den_RBlock.
+          apply (Hstep k ρ st step HI Hkm Es). intros ρ1 srv HI1 Hsr Hnc.
+          rewrite den_RMatchOk, den_RVar, Hsr. nb.
+          destruct srv as [[]| | | | | |]; try reflexivity.
+          rewrite den_RBlock. cbn [execs]. nb.
+          apply (extract_refines k (upd ρ1 (n_sr k) (DV v)) st (DV v)); auto.
+          { apply Inv_upd_temp; [exact HI1|apply temp_sr]. } { apply upd_same. } { exact I. }
+          intros ρ2 ds HI2 _. rewrite den_ROk, (final_tuple_sem ρ2 _ HI2). reflexivity.
+        * destruct Ej as (t & Etr & Eb). inversion Eb; subst ss e. rewrite den_RBlock.
+          apply (Hstep k ρ st step HI Hkm Es). intros ρ1 srv HI1 Hsr Hnc.
+          rewrite den_RMatchOk, den_RVar, Hsr. nb.
+          destruct srv as [[]| | | | | |]; try reflexivity.
+          rewrite den_RBlock. cbn [execs]. nb.
+          apply (extract_refines k (upd ρ1 (n_sr k) (DV v)) st (DV v)); auto.
+          { apply Inv_upd_temp; [exact HI1|apply temp_sr]. } { apply upd_same. } { exact I. }
+          intros ρ2 ds HI2 _.
+          apply (transposer_sem (tuple_of vars) final_tuple_sem (i0 :: ir) t Etr); [|exact HI2].
+          intros b Hb. rewrite <- Ef in Hb. apply filter_In in Hb. destruct Hb as [Hb _]. apply in_seq in Hb. lia.
+      + inversion Ej; subst ss e. rewrite den_RBlock.
+        apply (Hstep k ρ st step HI Hkm Es). intros ρ1 srv HI1 Hsr Hnc.
+        rewrite den_RMatchOk, den_RVar, Hsr. nb.
+        destruct srv as [[]| | | | | |]; try reflexivity.
+        rewrite den_ROk, den_RTuple, den_RVar, upd_same. reflexivity.
+    - replace (Nat.ltb k (j_max j - 1)) with true in Ej by (symmetry; apply Nat.ltb_lt; lia).
+      destruct Ej as (nss & ne & -> & Eb). inversion Eb; subst ss e. cbn [Nat.eqb].
+      rewrite den_RBlock.
+      apply (Hstep k ρ st step HI Hkm Es). intros ρ1 srv HI1 Hsr Hnc.
+      rewrite den_RMatchOk, den_RVar, Hsr. nb.
+      destruct srv as [[]| | | | | |]; try reflexivity.
+      rewrite den_RBlock. cbn [app]. rewrite execs_cons, exec_SLet_ident.
+      set (ρa := upd ρ1 (n_sr k) (DV v)).
+      assert (HIa : Inv ρa st) by (apply Inv_upd_temp; [exact HI1|apply temp_sr]).
+      rewrite (rewrap_sem k ρa v (upd_same _ _ _) Hne). nb.
+      apply bind_ext. intros rew. nb. fold (rewrapped rew).
+      rewrite execs_cons. nb.
+      assert (Hrnc : not_clo (rewrapped rew)).
+      { unfold rewrapped. destruct rew as [|d [|]]; try exact I.
+        (* a single re-wrapped value comes from `rewrap`: it is Ok(..) - but any dval is fine unless a closure *)
+        destruct d; try exact I. }
+      apply (extract_refines k (upd ρa (n_sr k) (rewrapped rew)) st (rewrapped rew)); auto.
+      { apply Inv_upd_temp; [exact HIa|apply temp_sr]. } { apply upd_same. }
+      intros ρ2 ds HI2 _. rewrite <- den_RBlock.
+      apply (IH (S k) nss ne En); [lia|exact HI2].
   Qed.
 End Steps.
